@@ -3,7 +3,7 @@
 # confirms the seeded change /tmp/seedout_<Cxx>/<k>/ in a scratch worktree (demo passes on HEAD, fails with the change, the 301
 # baseline tests still pass), stores it as /verif/seeded/<Cxx>_<short_name>/ and runs the property's quick check with the change applied to /repo
 set -u
-pid=$1; k=$2; name=$3; src=/tmp/seedout_$pid/$k; wt=/tmp/sc_${pid}_$k; dst=/verif/seeded/${pid}_$name
+pid=$1; k=$2; name=$3; src=${SEEDSRC:-/tmp/seedout}_$pid/$k; wt=/tmp/sc_${pid}_$k; dst=/verif/seeded/${pid}_$name
 [ -f $src/patch.diff ] || { echo "no $src/patch.diff"; exit 2; }
 [ -z "$(git -C /repo status --porcelain)" ] || { echo "/repo not clean"; exit 2; }
 git -C /repo worktree add -q --detach $wt HEAD || exit 2
